@@ -13,6 +13,9 @@ def make_tx(seed, a, label="t"):
     for i in range(a["n_in"]):
         seq = bytes.fromhex(a["seq0"] if i == 0 else a["seqrest"])
         ln = a["ss0"] if i == 0 else a["ssrest"]
+        if i == 0 and a.get("prevout0") == "null":
+            ins.append((bytes(32), 0xFFFFFFFF, f(f"ss{i % 5}", ln), seq))      # coinbase-shaped input
+            continue
         ins.append((f(f"txid{i % 7}", 32), (i * 3) % 5 if i else a.get("vout0", 0), f(f"ss{i % 5}", ln), seq))
     outs = []
     for i in range(a["n_out"]):
